@@ -387,10 +387,9 @@ func diffRes(w, g kit.ResHeader) string {
 
 const wait = 10 * time.Second
 
+// a peer that does not answer at all is not a statement about header formats: undecided
 func timing(clause, format string, a ...interface{}) kit.Outcome {
-	o := kit.Fail(clause, format, a...)
-	o.Timing = true
-	return o
+	return kit.Undecided("["+clause+"] "+format, a...)
 }
 
 // runServerWire: a request frame written with the reference encoder is decoded by a real server;
